@@ -15,7 +15,7 @@ PROPS = {
 PROPS["C14"] = {
     "level": "proof",
     "technique": "Lean 4 proof (word-trick lane lemma, walkers over length-prefixed lists by induction) + model-vs-code correspondence",
-    "level_text": "Model lean/Mp4ff/Model/Nalu.lean transcribes both start-code scanners, both conversions and every AVC/HEVC walker; theorems in Props/C14.lean; tie = correspondence on well-formed streams (all helpers) and arbitrary strings (scanners) on every run.",
+    "level_text": "Model lean/Mp4ff/Model/Nalu.lean transcribes both start-code scanners, both conversions and every AVC/HEVC walker; theorems in Props/C14.lean; tie = correspondence on well-formed streams (all helpers) and arbitrary strings (scanners) on every run; streams with a NAL unit of 2^24 bytes and more (length field beyond its low three bytes) are run through the real code and the direct oracle only - the list-based model is not executed on them, its conversion theorems hold for every size.",
     "level_note": "Trusted: Lean kernel, allowed axioms only, hand transcription validated by correspondence; amd64 little-endian 64-bit words.",
     "trusted": ["Model/Nalu.lean hand transcription of avc/annexb.go, avc/nalus.go, avc/avc.go, hevc/hevc.go, hevc/annexb.go"],
     "unmodelled": [],
@@ -26,7 +26,7 @@ PROPS["C14"] = {
 PROPS["C18"] = {
     "level": "proof",
     "technique": "Lean 4 proof (bit round trip lemmas instantiated on the ASC and ADTS syntaxes; sync search by induction on the junk) + complete-grid correspondence",
-    "level_text": "Model lean/Mp4ff/Model/Aac.lean transcribes AudioSpecificConfig encode/decode and ADTS encode/decode (188-iteration sync search) on the proved bit writer/reader; theorems in Props/C18.lean cover the whole domain by proof, not enumeration; the tie is the complete finite grid run against the Go code on every check (all 13x8x8185 ADTS headers, all junk lengths 0..187, 77 frequencies x 16 channels x 3 object types), plus, in Props/C18b.lean on Model/Esds.lean (mp4/esds.go + mp4/descriptors.go: ES / DecoderConfig / DecSpecificInfo / SLConfig / raw descriptors, tag + variable-length size coding incl. the padded 0x80 forms, what the decoder accepts vs. what the encoder writes, CreateEsdsBox): decode(encode e) = e for every well-formed descriptor tree, bytes written = Size(), encode(decode bs) = bs up to the dropped trailing bytes, the decoder is total with a decoded tree bounded by the input, and the end-to-end clause: for every configuration in AscDom the esds created from its AudioSpecificConfig, encoded and decoded, carries bytes that decode back to that configuration. Tie: ops esds.create / esds.dec / esds.rt on boxes created from the generated configurations, the repository's esds boxes, random descriptor trees in every size-field form and their mutations (accept/reject, error class, re-encoding compared); the AAC sample entry path through the mp4 package is also checked by the direct oracle.",
+    "level_text": "Model lean/Mp4ff/Model/Aac.lean transcribes AudioSpecificConfig encode/decode and ADTS encode/decode (188-iteration sync search) on the proved bit writer/reader; theorems in Props/C18.lean cover the whole domain by proof, not enumeration; the tie is the complete finite grid run against the Go code on every check (all 13x8x8185 ADTS headers, all junk lengths 0..187 with random junk and with junk made of sync-word fragments (ff runs, ff right before the sync word, ff + near-sync bytes), 188..200 junk bytes and streams without a sync word, 77 frequencies x 16 channels x 3 object types; sequences of encode/decode calls whose results are held and compared after the last call: the model answers each call on its own), plus, in Props/C18b.lean on Model/Esds.lean (mp4/esds.go + mp4/descriptors.go: ES / DecoderConfig / DecSpecificInfo / SLConfig / raw descriptors, tag + variable-length size coding incl. the padded 0x80 forms, what the decoder accepts vs. what the encoder writes, CreateEsdsBox): decode(encode e) = e for every well-formed descriptor tree, bytes written = Size(), encode(decode bs) = bs up to the dropped trailing bytes, the decoder is total with a decoded tree bounded by the input, and the end-to-end clause: for every configuration in AscDom the esds created from its AudioSpecificConfig, encoded and decoded, carries bytes that decode back to that configuration. Tie: ops esds.create / esds.dec / esds.rt on boxes created from the generated configurations, the repository's esds boxes, random descriptor trees in every size-field form and their mutations (accept/reject, error class, re-encoding compared); the AAC sample entry path through the mp4 package is also checked by the direct oracle.",
     "level_note": "Trusted: Lean kernel, allowed axioms, hand transcription validated by correspondence.",
     "trusted": ["Model/Aac.lean hand transcription of aac/aac.go, aac/adts.go", "Model/Esds.lean hand transcription of mp4/esds.go, mp4/descriptors.go (sticky-error slice reader, uint64/byte wraps of the size coding, signed int(size) arithmetic)"],
     "extra_props": ["C18b"],
@@ -38,10 +38,10 @@ PROPS["C18"] = {
 PROPS["C17"] = {
     "level": "proof",
     "technique": "Lean 4 proof (framing through the proved EBSP writer/reader refinement; typed payload syntaxes by bit round trip) + model-vs-code correspondence",
-    "level_text": "Model lean/Mp4ff/Model/Sei.lean transcribes WriteSEIMessages/ExtractSEIData (0xFF-run coding, MoreRbspData look-ahead with state restore, trailing bits) and the typed messages with a serialiser (136, 137, 144, AVC pic timing incl. Size()); theorems in Props/C17.lean; tie = correspondence on message lists and typed values every run; pass-through messages by direct oracle.",
+    "level_text": "Model lean/Mp4ff/Model/Sei.lean transcribes WriteSEIMessages/ExtractSEIData (0xFF-run coding, MoreRbspData look-ahead with state restore, trailing bits) and the typed messages with a serialiser (136, 137, 144, AVC pic timing incl. Size()); theorems in Props/C17.lean; tie = correspondence on message lists and typed values every run; pass-through messages by direct oracle. Complete SEI NAL units through avc.ParseSEINalu / hevc.ParseSEINalu (header test + framing modelled as parseSEINalu, theorem sei_nalu_roundtrip; the per-message decoder dispatch is not modelled: on these lines every typed payload is valid for its decoder) are compared with the model and by direct oracle, with 1..3 NAL units parsed before any returned list is inspected.",
     "level_note": "Trusted: Lean kernel, allowed axioms, hand transcription validated by correspondence. HEVC pic timing / CEA-608 / registered / unregistered user data are pass-through (payload returned unchanged): oracle only.",
-    "trusted": ["Model/Sei.lean hand transcription of sei/sei.go, sei136.go, sei137.go, sei144.go, sei1_avc.go, bits/ebspreader.go (MoreRbspData)"],
-    "unmodelled": ["sei4.go/sei5.go/sei1_hevc.go decoders (pass-through: direct oracle only)", "String() methods"],
+    "trusted": ["Model/Sei.lean hand transcription of sei/sei.go, sei136.go, sei137.go, sei144.go, sei1_avc.go, bits/ebspreader.go (MoreRbspData), and of the header test of avc/sei.go, hevc/sei.go"],
+    "unmodelled": ["sei4.go/sei5.go/sei1_hevc.go decoders (pass-through: direct oracle only)", "the decoder dispatch by type / codec / SPS inside ParseSEINalu and DecodeSEIMessage (direct oracle + correspondence on (type, payload) only)", "String() methods"],
     "partial": [],
     "assumptions": ["typed message values are canonical (fields the syntax does not carry are zero), as produced by the decoders"],
 }
@@ -143,7 +143,7 @@ PROPS["C12"] = {
     "level": "proof",
     "tools": ["examples/add-sidx"],
     "technique": "Lean 4 proof (grouping state machine: every moof in exactly one fragment of one segment, in order, for every delimiter configuration; sidx tiling arithmetic) + model-vs-code correspondence on generated fragmented files",
-    "level_text": "Model lean/Mp4ff/Model/Segments.lean transcribes File.AddChild (styp/sidx/emsg/moof/mdat) and startSegmentIfNeeded (sidx references, tfra offsets, start-on-moof, default); theorems in Props/C12.lean; tie = the grouping of every generated file (all delimiter kinds x both flags) is computed by model and code and compared, plus direct oracles: segment-mode re-encoding byte-identical, and after UpdateSidx+Encode the written index is parsed independently and checked to tile the written media with the reference track's durations.",
+    "level_text": "Model lean/Mp4ff/Model/Segments.lean transcribes File.AddChild (styp/sidx/emsg/moof/mdat) and startSegmentIfNeeded (sidx references counted over all top-level sidx boxes from their anchor points, tfra offsets, start-on-moof, default); theorems in Props/C12.lean; tie = the grouping of every generated file (all delimiter kinds incl. references spread over 2..4 top-level sidx boxes with/without a parent index, x both flags; sidx-delimited files also with a disturbed index) is computed by model and code and compared, plus direct oracles: segment-mode re-encoding byte-identical, and after UpdateSidx+Encode the written index is parsed independently and checked to tile the written media with the reference track's durations.",
     "level_note": "Trusted: Lean kernel, allowed axioms, transcription validated by correspondence; findSegmentData/fillSidx/insertSidx are exercised by the direct oracle (independent sidx parser).",
     "trusted": ["Model/Segments.lean hand transcription of mp4/file.go AddChild + startSegmentIfNeeded"],
     "unmodelled": ["UpdateSidx internals (findSegmentData, fillSidx, insertSidx) and the examples/add-sidx tool (built from the working tree on every run; options -removeEnc, -nzEPT, -startSegOnMoof): direct oracle on the written file"],
